@@ -219,6 +219,7 @@ def _crop_sites(ck, prog, run):
         (f_snip, [z, Num(t), Num(n)], {}, oracle_nz, "snippet(z, t, n)"),
         (f_coh, [z, dm_value(prog)], {}, None, "coherent_dedispersion(z, DM)"),
         (f_stft, [make_signal(prog, "BasebandSignal", nchan=2)], {"nperseg": Num(2 * P)}, None, "stft(z, nperseg)"),
+        (prog.func("incoherent_dedispersion"), [make_signal(prog, "RadioSignal", nchan=3), dm_value(prog)], {}, None, "incoherent_dedispersion(z, DM)"),
     ]
     n_sites = 0
     results = {}
@@ -230,6 +231,8 @@ def _crop_sites(ck, prog, run):
         results[label] = (out, ev)
         if out is None:
             continue
+        if label.startswith("incoherent_dedispersion"):
+            continue        # its per-channel array crops are decided by C06 (in-range sources); here only the time ledger below
         for sfi, node, idx, facts in ev.signal_slices:
             known = facts_nonneg(facts)
             for bnd in _bounds_of(idx):
@@ -240,6 +243,19 @@ def _crop_sites(ck, prog, run):
                         "(a negative bound would be read as an index from the end and keep samples with wrong times)",
                         ok, found="not provably >= 0 by the sign rules", nontrivial=True)
     run.floor("R5", "computed signal-level slice bounds examined", n_sites, 7)
+    # the time ledger of every cropping operation is a physical quantity: it cannot depend on the unit the caller's sample rate (or any
+    # other Quantity) happens to be held in -- a bare `.value` of such a quantity leaves that unknown scale in the result
+    for label, (out, ev) in results.items():
+        if not isinstance(out, ObjV):
+            continue
+        leaked = []
+        for attr in ("_start_time", "_sample_rate"):
+            v_ = out.attrs.get(attr)
+            if isinstance(v_, Num):
+                leaked += [f"{attr[1:]}: {x_}" for x_ in sorted(map(str, v_.expr.free_symbols)) if x_.startswith("unitof_")]
+        fi_ = next(f for f, _a, _k, _o, l in plans if l == label)
+        ck.same("R4", fi_.where, f"{label}: time ledger", "start time and sample rate of the result do not depend on the unit a Quantity argument is held in",
+                not leaked, found="; ".join(leaked)[:200] or None, nontrivial=True)
     # R4 ledgers
     out, ev = results["fast_len(z)"]
     if out is not None:
